@@ -501,6 +501,11 @@ func (d *Def) endlessDefinition(
 
 	d.setDefineMethodT(p, ctx, methodT, defineRow)
 
+	// an endless definition is a definition like any other for -i / --llm-nav
+	if ctx.IsCheckRound() {
+		d.setDefineInfos(p, ctx, methodT, defineRow, p.ErrorRow)
+	}
+
 	return nil
 }
 
